@@ -5,15 +5,16 @@
 # are written to a private VERIF_ROOT copy so /verif/evidence is not disturbed.
 # Output: seeded/matrix.txt lines "<id> <property> <tier> exit=<n> <seconds>s"
 TIER="${1:-quick}"; shift
+VROOT="$(cd "$(dirname "$0")/.." && pwd)"; export VROOT
 PAIRS="$*"
-if [ -z "$PAIRS" ]; then for d in /verif/seeded/C*/; do id=$(basename $d); PAIRS="$PAIRS $id:${id%%-*}"; done; fi
+if [ -z "$PAIRS" ]; then for d in $VROOT/seeded/C*/; do id=$(basename $d); PAIRS="$PAIRS $id:${id%%-*}"; done; fi
 run_one() {
   pair=$1; id=${pair%%:*}; prop=${pair##*:}
   wt=$(mktemp -d /tmp/mx-XXXXXX); rmdir $wt
   git -C /repo worktree add --detach $wt HEAD >/dev/null 2>&1 || { echo "$id $prop worktree-failed"; return; }
-  git -C $wt apply /verif/seeded/$id/patch.diff || { echo "$id $prop patch-failed"; git -C /repo worktree remove --force $wt; return; }
+  git -C $wt apply $VROOT/seeded/$id/patch.diff || { echo "$id $prop patch-failed"; git -C /repo worktree remove --force $wt; return; }
   vr=$(mktemp -d /tmp/mxroot-XXXXXX)
-  cp -r /verif/spec /verif/harness /verif/bin /verif/known-findings.json $vr/ 2>/dev/null; mkdir -p $vr/evidence
+  cp -r $VROOT/spec $VROOT/harness $VROOT/bin $VROOT/known-findings.json $vr/ 2>/dev/null; mkdir -p $vr/evidence
   s=$(date +%s)
   VERIF_ROOT=$vr VERIF_REPO=$wt $vr/bin/check $prop $TIER > $vr/out.txt 2> $vr/err.txt; rc=$?
   e=$(date +%s)
